@@ -375,6 +375,35 @@ func boundaries() []endpoint {
 		func(c *clients) (any, error) {
 			return c.p.CreatePromiseAndTask(ctx, &pb.CreatePromiseAndTaskRequest{Promise: &pb.CreatePromiseRequest{Id: "p", Timeout: 9, RequestId: "rid"}, Task: &pb.CreatePromiseTaskRequest{ProcessId: "w", Ttl: 3}})
 		}, "", 0})
+	// completion values of every shape: headers only, data only, neither, both - for resolve, reject and cancel
+	type vshape struct {
+		name, json string
+		pb         *pb.Value
+	}
+	for _, vs := range []vshape{
+		{"headers-only", `,"value":{"headers":{"h":"1"}}`, &pb.Value{Headers: map[string]string{"h": "1"}}},
+		{"data-only", `,"value":{"data":"ZGF0YQ=="}`, &pb.Value{Data: []byte("data")}},
+		{"no-value", ``, nil},
+		{"empty-value", `,"value":{}`, &pb.Value{}},
+	} {
+		vs := vs
+		out = append(out, endpoint{"ResolvePromise:" + vs.name, t_api.CompletePromise, "PATCH", "/promises/p", rid, `{"state":"RESOLVED"` + vs.json + `}`,
+			func(c *clients) (any, error) {
+				return c.p.ResolvePromise(ctx, &pb.ResolvePromiseRequest{Id: "p", Value: vs.pb, RequestId: "rid"})
+			}, "", 0})
+		out = append(out, endpoint{"RejectPromise:" + vs.name, t_api.CompletePromise, "PATCH", "/promises/p", rid, `{"state":"REJECTED"` + vs.json + `}`,
+			func(c *clients) (any, error) {
+				return c.p.RejectPromise(ctx, &pb.RejectPromiseRequest{Id: "p", Value: vs.pb, RequestId: "rid"})
+			}, "", 0})
+		out = append(out, endpoint{"CancelPromise:" + vs.name, t_api.CompletePromise, "PATCH", "/promises/p", rid, `{"state":"REJECTED_CANCELED"` + vs.json + `}`,
+			func(c *clients) (any, error) {
+				return c.p.CancelPromise(ctx, &pb.CancelPromiseRequest{Id: "p", Value: vs.pb, RequestId: "rid"})
+			}, "", 0})
+		out = append(out, endpoint{"CreatePromise:param-" + vs.name, t_api.CreatePromise, "POST", "/promises", rid, `{"id":"p","timeout":9` + strings.Replace(vs.json, `"value"`, `"param"`, 1) + `}`,
+			func(c *clients) (any, error) {
+				return c.p.CreatePromise(ctx, &pb.CreatePromiseRequest{Id: "p", Timeout: 9, Param: vs.pb, RequestId: "rid"})
+			}, "", 0})
+	}
 	// physical receivers: the JSON object in HTTP, the oneof in gRPC
 	recvP := &pb.Recv{Recv: &pb.Recv_Physical{Physical: &pb.PhysicalRecv{Type: "poll", Data: []byte(`{"group":"g","id":"i"}`)}}}
 	out = append(out, endpoint{"CreateCallback:physical-recv", t_api.CreateCallback, "POST", "/callbacks", rid, `{"Id":"cb","promiseId":"p","rootPromiseId":"root","timeout":9,"recv":{"type":"poll","data":{"group":"g","id":"i"}}}`,
